@@ -21,4 +21,4 @@ Task: produce TWO different, independent changes (A and B) to the library source
  (3) is REALISTIC — it looks like a plausible refactoring, optimisation, clean-up or small bug-fix gone wrong that could pass code review, not sabotage — and
  (4) needs something SPECIFIC to manifest: an unusual but legal input or size, a boundary value, a particular option combination, a multi-step sequence of calls, or two cooperating code sites that each look fine alone. A change that ordinary use (the README examples, the default arguments on a typical model) exposes at once is NOT what we want. A and B must use different mechanisms in different functions.
 For each change write a small demonstration program demo.py (plain Python, run as `PYTHONPATH=<tree> /venv/bin/python demo.py`, no arguments, < 2 minutes) that exits 0 on the UNCHANGED tree and exits non-zero (assert / sys.exit(1)) with the change applied, demonstrating the property violation directly through the library's public behaviour (not by inspecting the changed line).
-Deliver, for X in A, B: /tmp/mut/out/{pid}/X/patch.diff (output of `git -C {wt} diff` for that change alone, relative to HEAD; must apply with `git apply` on a clean checkout of HEAD), /tmp/mut/out/{pid}/X/demo.py, /tmp/mut/out/{pid}/X/meta.json with keys: summary (what was changed and why it breaks the property), needs (what exactly is needed for it to manifest), tests_run (the pytest command and its result with the change applied). Verify yourself: demo exits 0 on a clean tree (`git -C {wt} stash` or checkout), non-zero with the patch; tests as above. Leave the worktree clean (git -C {wt} checkout -- .) when done. Python is /venv/bin/python (torch installed); no network. Your final message: a 10-line summary of A and B.""")
+Deliver, for X in A, B: /tmp/mut/out/{pid}/X/patch.diff (output of `git -C {wt} diff` for that change alone, relative to HEAD; must apply with `git apply` on a clean checkout of HEAD), /tmp/mut/out/{pid}/X/demo.py, /tmp/mut/out/{pid}/X/meta.json with keys: summary (what was changed and why it breaks the property), needs (what exactly is needed for it to manifest), tests_run (the pytest command and its result with the change applied). Verify yourself: demo exits 0 on a clean tree (save your change with `git -C {wt} diff > /tmp/mut/out/{pid}/X/patch.diff`, then `git -C {wt} checkout -- .`, later `git -C {wt} apply` it again; NEVER use `git stash`: the stash is shared by all worktrees of the repository and other agents work in parallel), non-zero with the patch; tests as above. Leave the worktree clean (git -C {wt} checkout -- .) when done. Python is /venv/bin/python (torch installed); no network. Your final message: a 10-line summary of A and B.""")
